@@ -188,7 +188,15 @@ pub fn gen_world(rng: &mut Rng, k: &WorldKnobs) -> World {
     }
     for c in &contracts {
         let n = rng.range(k.snippets.0, k.snippets.1) as usize;
-        let code = gen_program(rng, &ctx, n, 0);
+        let mut code = gen_program(rng, &ctx, n, 0);
+        if spec == SpecId::OSAKA && rng.bool() {
+            // EOF contract (EXTCALL / EXTDELEGATECALL / EXTSTATICCALL between EOF and legacy
+            // code); only containers that revm's own validation accepts are deployed
+            let eof = gen_eof_program(rng, &ctx, n);
+            if revm::interpreter::analysis::validate_raw_eof_inner(eof.clone(), Some(revm::interpreter::analysis::CodeType::ReturnOrStop)).is_ok() {
+                code = eof;
+            }
+        }
         let mut d = DiskAccount {
             balance: if rng.chance(1, 2) { U256::from(rng.below(1000)) } else if k.near_max_balances && rng.chance(1, 3) { U256::MAX - U256::from(rng.below(100)) } else { U256::ZERO },
             nonce: if spec.is_enabled_in(SpecId::SPURIOUS_DRAGON) { 1 } else { 0 },
@@ -289,6 +297,9 @@ pub fn gen_tx(rng: &mut Rng, w: &World) -> TxSpec {
         3 => 3_000_000,
         _ => 300_000 + rng.below(1_200_000),
     };
+    // EOF calls keep only max(gas/64, 5000) back, so recursion through EXTCALL is bounded by
+    // the gas alone: smaller limits keep OSAKA runs as cheap as the others
+    let gas_limit = if spec == SpecId::OSAKA { gas_limit.min(250_000) } else { gas_limit };
     let london = spec.is_enabled_in(SpecId::LONDON);
     let (gas_price, priority_fee) = if london && rng.bool() {
         let max = w.block.basefee + U256::from(rng.below(30));
